@@ -42,6 +42,24 @@ def gen_activation():
     has_test = "abs(U) < 1e-10 and abs(V) < 1e-10" in body_act
     has_formula = "W * (V-U+(V+U)/2)" in body_act
     need(has_test == has_formula, "activity(): the small-argument test and its formula no longer go together")
+    # Sample.decay_time: the two lines whose form the model follows (fail closed on anything else)
+    cls = [n for n in tree.body if isinstance(n, ast.ClassDef) and n.name == "Sample"]
+    need(len(cls) == 1, "expected exactly one class Sample")
+    dts = [n for n in cls[0].body if isinstance(n, ast.FunctionDef) and n.name == "decay_time"]
+    need(len(dts) == 1, "expected exactly one Sample.decay_time")
+    dt = ast.get_source_segment(src, dts[0]).replace(" ", "")
+    for frag in ("f=lambdat:sum(Ia*exp(-La*(t-To))forIa,Laindata)-target", "min(enumerate(self.rest_times),key=lambdax:x[1])",
+                 "initial=max(-log(target/Ia)/La+ToforIa,Laindata)", "find_root(initial,f,df)",
+                 "percent_error=100*abs(ft)/target", "ifpercent_error>0.1:", "raiseRuntimeError(msg)"):
+        need(frag in dt, "Sample.decay_time no longer contains %r: the model must be revisited" % frag)
+    early_old, early_new = "iff(0)<target:return0" in dt.replace("\n", ""), "iff(0)<=0:return0" in dt.replace("\n", "")
+    need(early_old != early_new, "Sample.decay_time: unrecognised early-exit test")
+    df_old = "df=lambdat:sum(La*Ia*(To-1)*exp(-La*(t-To))forIa,Laindata)" in dt
+    df_new = "df=lambdat:-sum(La*Ia*exp(-La*(t-To))forIa,Laindata)" in dt
+    need(df_old != df_new, "Sample.decay_time: unrecognised derivative")
+    fr = ast.get_source_segment(src, _func(tree, "find_root")).replace(" ", "")
+    for frag in ("deffind_root(x,f,df,max=20,tol=1e-10):", "fx=f(x)", "for_inrange(max):", "ifabs(f(x))<tol:", "x-=fx/df(x)", "returnx,fx"):
+        need(frag in fr, "find_root no longer contains %r: the model must be revisited" % frag)
     dat = os.path.join(PKG, "activation.dat")
     with open(dat, "rb") as f:
         raw = f.read()
@@ -58,6 +76,8 @@ def gen_activation():
         "Definition act_bool_columns : list Z := [%s]%%Z." % "; ".join(str(i) for i in bools),
         "Definition act_float_columns : list Z := [%s]%%Z." % "; ".join(str(i) for i in floats),
         "Definition act_small_branch : bool := %s." % ("true" if has_test else "false"),
+        "Definition dt_early_exit_vs_target : bool := %s." % ("true" if early_old else "false"),
+        "Definition dt_df_rest_factor : bool := %s." % ("true" if df_old else "false"),
     ])
     write("ActivationDat", "periodictable/activation.dat, periodictable/activation.py", body)
 
